@@ -108,6 +108,38 @@ def param_deps(fn, roots, extra_scope=()):
     return out & params
 
 
+def _parent_chain_whole(root, target):
+    """True when `target` (a Name inside expression `root`) reaches the root only through tuple displays and
+    whole-object conversions (tuple(), frozenset(), str(), repr(), bytes(), .tobytes(), tuple(map(tuple, x)))"""
+    path = []
+
+    def find(n, acc):
+        if n is target:
+            path.extend(acc)
+            return True
+        for ch in ast.iter_child_nodes(n):
+            if find(ch, acc + [n]):
+                return True
+        return False
+    if not find(root, []):
+        return False
+    for anc in path:
+        if isinstance(anc, (ast.Tuple,)):
+            continue
+        if isinstance(anc, ast.Call):
+            f = dotted(anc.func) or ''
+            last = f.split('.')[-1]
+            if last in ('tuple', 'frozenset', 'str', 'repr', 'bytes', 'tobytes', 'map', 'float', 'int'):
+                continue
+            return False
+        if isinstance(anc, ast.Attribute) and anc.attr == 'tobytes':
+            continue
+        if isinstance(anc, (ast.Starred, ast.Load)):
+            continue
+        return False
+    return True
+
+
 def rule_key_full(rep, prog, modname, qual, cache_name):
     m = prog.mod(modname)
     fn = prog.func(modname, qual)
@@ -134,6 +166,21 @@ def rule_key_full(rep, prog, modname, qual, cache_name):
         # module-level functions / imports are not inputs
         vdeps = {v for v in vdeps if v in scope or v in extra}
         missing = sorted(v for v in vdeps - kdeps if v != cache_name)
+        # every input must enter the key WHOLE (p, tuple(p), p.tobytes() ...), not through a lossy projection (len(p), p[1], p.sum())
+        keyexpr = inline(st.targets[0].slice, singles)
+        lossy = []
+        for v in sorted(vdeps & kdeps):
+            whole = False
+            for nnode in ast.walk(keyexpr):
+                if isinstance(nnode, ast.Name) and nnode.id == v:
+                    par = _parent_chain_whole(keyexpr, nnode)
+                    if par:
+                        whole = True
+            if not whole and v in names_in(keyexpr):
+                lossy.append(v)
+        rep.ob('R-KEY', '%s:%s %s' % (m.rel, qual, cache_name), not lossy,
+               ('input(s) %s enter the key %s only through lossy projections (length, single elements, reductions): different inputs share a key' % (lossy, ast.unparse(keyexpr))) if lossy
+               else 'every input enters the key as a whole object', m.rel, st.lineno, what='key determines every input (no lossy projection)')
         rep.ob('R-KEY', '%s:%s %s' % (m.rel, qual, cache_name), not missing,
                'cached value depends on %s; key %s depends on %s%s' % (sorted(vdeps), ast.unparse(st.targets[0].slice), sorted(kdeps),
                                                                     ('; key omits ' + ', '.join(missing)) if missing else ''),
